@@ -273,6 +273,15 @@ theorem C03_server_mech_configured (cfg : List (String × Mech)) (peer : List SE
   have := List.mem_of_find?_eq_some hl
   exact List.mem_map.mpr ⟨(name, m), this, rfl⟩
 
+/-- the receiving side never steps a mechanism it cannot serve: the mechanism of an
+authenticated exchange does not carry the "-PLUS" suffix (the SASL library's server side has no
+channel binding; before the repair selecting such a mechanism panicked the receiver) -/
+theorem C03_server_mech_supported (cfg : List (String × Mech)) (peer : List SEv)
+    (h : (serverNeg cfg peer).authn = true) :
+    ∃ name, (serverNeg cfg peer).used = some name ∧ serverSupported name = true := by
+  obtain ⟨_, name, m, _, _, _, _, _, _, _, hl, _, _, _, hu, _⟩ := C03_server_sound cfg peer h
+  exact ⟨name, hu, lookup_supported hl⟩
+
 /-- an error is never returned together with the `Authn` bit -/
 theorem C03_server_fail_closed (cfg : List (String × Mech)) (peer : List SEv)
     (h : (serverNeg cfg peer).err ≠ .none) : (serverNeg cfg peer).authn = false := by
